@@ -159,7 +159,7 @@ pub fn concretize(ctx: &Ctx, e: &Entry, prop: &str, pl: &Plan, max_ops: usize, a
             let f = wr[pick(a.f, wr.len())];
             let fc = &ctx.fields[f];
             let i = conc_index(fc.count, a.i_mode, a.i);
-            Case::Write { raw: H(raw), f, i, v: H(conc_val(fc, &a.v)) }
+            Case::Write { raw: H(raw), f, i, v: H(conc_val_rel(ctx, f, i, &a.v, raw)) }
         }
         Kind::Oob => {
             let f = arr[pick(a.f, arr.len())];
@@ -177,18 +177,26 @@ pub fn concretize(ctx: &Ctx, e: &Entry, prop: &str, pl: &Plan, max_ops: usize, a
                 return None;
             }
             let op = ops[(a.i_mode as usize) % ops.len()];
-            Case::Oob { raw: H(raw), f, i, op, v: H(conc_val(fc, &a.v)) }
+            // one value in four equals the bits found where the out-of-range element would lie (a write that
+            // "changes nothing" must still be refused)
+            let mut v = conc_val(fc, &a.v);
+            if (a.v.mode >> 3) % 4 == 0 && fc.valid_vals.is_none() {
+                let off = (i as u128).wrapping_mul(ctx.layout.fields[f].stride() as u128);
+                let shifted: Vec<u32> = fc.pos[0].iter().map(|p| (*p as u128).wrapping_add(off)).map(|p| if p < 128 { p as u32 } else { (p % 128) as u32 }).collect();
+                v = gather(raw, &shifted) & mask(fc.width);
+            }
+            Case::Oob { raw: H(raw), f, i, op, v: H(v) }
         }
         Kind::History => {
             let allow_build = prop == "C11" && e.build.is_some();
             let n = a.ops.len().min(max_ops);
-            Case::History { raw: H(raw), ops: conc_ops(ctx, &pl.elig, &a.ops[..n], allow_build, false) }
+            Case::History { raw: H(raw), ops: conc_ops(ctx, &pl.elig, &a.ops[..n], allow_build, false, raw) }
         }
         Kind::Build => Case::Build { args: conc_build_args(ctx, a) },
         Kind::Raw => Case::Raw { raw: H(raw) },
         Kind::Debug => {
             let n = a.ops.len().min(6);
-            Case::Debug { raw: H(raw), ops: conc_ops(ctx, &pl.elig, &a.ops[..n], false, true) }
+            Case::Debug { raw: H(raw), ops: conc_ops(ctx, &pl.elig, &a.ops[..n], false, true, raw) }
         }
     })
 }
